@@ -44,38 +44,49 @@ def main():
     wt = "/tmp/wt/verify-%s" % name
     meta = {"id": name, "property": pid.upper(), "source": "independent sub-agent working in a private worktree with the property text only",
             "ran": [], "at": time.strftime("%Y-%m-%d %H:%M:%S")}
-    sh(["git", "-C", REPO, "worktree", "remove", "--force", wt])
-    rc, out = sh(["git", "-C", REPO, "worktree", "add", "--detach", wt, "HEAD"])
-    try:
-        demo_name = os.path.basename(demo)[:-3]
-        shutil.copy(demo, os.path.join(wt, "strum_tests", "tests", os.path.basename(demo)))
-        # 1. demo on the clean tree
-        rc, out = sh("cargo test -p strum_tests --test %s --offline%s" % (demo_name, feat), cwd=wt)
-        p, f = test_summary(out)
-        meta["demo_clean"] = {"passed": p, "failed": f, "rc": rc}
-        meta["ran"].append("clean tree: cargo test -p strum_tests --test %s --offline -> %d passed, %d failed" % (demo_name, p, f))
-        # 2. with the change
-        rc, out = sh(["git", "apply", diff], cwd=wt)
-        if rc != 0:
-            meta["error"] = "diff does not apply: " + out[-500:]
-            raise SystemExit(finish(meta, name, diff, demo, notes, ok=False))
-        os.remove(os.path.join(wt, "strum_tests", "tests", os.path.basename(demo)))
-        rc, out = sh("cargo test --workspace --no-fail-fast --offline", cwd=wt)
-        p, f = test_summary(out)
-        meta["suite_with_change"] = {"passed": p, "failed": f, "rc": rc}
-        meta["ran"].append("changed tree: cargo test --workspace --no-fail-fast --offline -> %d passed, %d failed (rc %d)" % (p, f, rc))
-        shutil.copy(demo, os.path.join(wt, "strum_tests", "tests", os.path.basename(demo)))
-        rc, out = sh("cargo test -p strum_tests --test %s --offline%s" % (demo_name, feat), cwd=wt)
-        p, f = test_summary(out)
-        compile_fail = ("error[" in out or "error:" in out) and p + f == 0
-        meta["demo_with_change"] = {"passed": p, "failed": f, "rc": rc, "compile_error": compile_fail}
-        meta["ran"].append("changed tree: demo -> %d passed, %d failed, rc %d" % (p, f, rc))
-        valid = (meta["demo_clean"]["failed"] == 0 and meta["demo_clean"]["passed"] > 0 and meta["demo_clean"]["rc"] == 0
-                 and meta["suite_with_change"]["failed"] == 0 and meta["suite_with_change"]["rc"] == 0
-                 and (meta["demo_with_change"]["failed"] > 0 or meta["demo_with_change"]["rc"] != 0))
-        meta["valid_seed"] = valid
-    finally:
+    skip = "--skip-validate" in sys.argv
+    if skip:
+        # regression re-run of an already validated seed: reuse the stored validation record
+        oldm = json.load(open(os.path.join(VERIF, "seeded", name, "meta.json")))
+        for k in ("demo_clean", "suite_with_change", "demo_with_change", "valid_seed", "note"):
+            if k in oldm:
+                meta[k] = oldm[k]
+        meta["ran"].append("validation reused from the first run of this seed")
+    if not skip:
         sh(["git", "-C", REPO, "worktree", "remove", "--force", wt])
+        rc, out = sh(["git", "-C", REPO, "worktree", "add", "--detach", wt, "HEAD"])
+    try:
+      if not skip:
+          demo_name = os.path.basename(demo)[:-3]
+          shutil.copy(demo, os.path.join(wt, "strum_tests", "tests", os.path.basename(demo)))
+          # 1. demo on the clean tree
+          rc, out = sh("cargo test -p strum_tests --test %s --offline%s" % (demo_name, feat), cwd=wt)
+          p, f = test_summary(out)
+          meta["demo_clean"] = {"passed": p, "failed": f, "rc": rc}
+          meta["ran"].append("clean tree: cargo test -p strum_tests --test %s --offline -> %d passed, %d failed" % (demo_name, p, f))
+          # 2. with the change
+          rc, out = sh(["git", "apply", diff], cwd=wt)
+          if rc != 0:
+              meta["error"] = "diff does not apply: " + out[-500:]
+              raise SystemExit(finish(meta, name, diff, demo, notes, ok=False))
+          os.remove(os.path.join(wt, "strum_tests", "tests", os.path.basename(demo)))
+          rc, out = sh("cargo test --workspace --no-fail-fast --offline", cwd=wt)
+          p, f = test_summary(out)
+          meta["suite_with_change"] = {"passed": p, "failed": f, "rc": rc}
+          meta["ran"].append("changed tree: cargo test --workspace --no-fail-fast --offline -> %d passed, %d failed (rc %d)" % (p, f, rc))
+          shutil.copy(demo, os.path.join(wt, "strum_tests", "tests", os.path.basename(demo)))
+          rc, out = sh("cargo test -p strum_tests --test %s --offline%s" % (demo_name, feat), cwd=wt)
+          p, f = test_summary(out)
+          compile_fail = ("error[" in out or "error:" in out) and p + f == 0
+          meta["demo_with_change"] = {"passed": p, "failed": f, "rc": rc, "compile_error": compile_fail}
+          meta["ran"].append("changed tree: demo -> %d passed, %d failed, rc %d" % (p, f, rc))
+          valid = (meta["demo_clean"]["failed"] == 0 and meta["demo_clean"]["passed"] > 0 and meta["demo_clean"]["rc"] == 0
+                   and meta["suite_with_change"]["failed"] == 0 and meta["suite_with_change"]["rc"] == 0
+                   and (meta["demo_with_change"]["failed"] > 0 or meta["demo_with_change"]["rc"] != 0))
+          meta["valid_seed"] = valid
+    finally:
+        if not skip:
+            sh(["git", "-C", REPO, "worktree", "remove", "--force", wt])
     if not meta.get("valid_seed"):
         return finish(meta, name, diff, demo, notes, ok=False)
     # 3. our checks against it
